@@ -131,16 +131,28 @@ Definition enc_out (r : res pstate) : data :=
   | Err e => DList [DStr "Err"; DStr e]
   end.
 
-(* case: (lines env) ; answer: (M S) *)
+(* case: (lines env) ; answer: (M S)
+   case: (lines env (env2 ...)) - further commands compiling the same file, each from a fresh
+   state ; answer: (M S ((M2 S2) ...)).  The harness forms the union of the marks: a platform
+   uses a line iff one of its commands does (the composition law itself is C08's subject). *)
+Definition run_one (prog : list (nat * kind act cond)) (e0 : env) : data :=
+  let p0 := {| marks := []; menv := e0 |} in
+  DList [enc_out (run_Mi prog p0); enc_out (run_Si prog p0)].
 Definition run_C01 (d : data) : data :=
   match d with
   | DList [ls; e] =>
       match as_list_of dec_kind ls, dec_env e with
-      | Some ks, Some e0 =>
-          let prog := number 0 ks in
-          let p0 := {| marks := []; menv := e0 |} in
-          DList [enc_out (run_Mi prog p0); enc_out (run_Si prog p0)]
+      | Some ks, Some e0 => run_one (number 0 ks) e0
       | _, _ => bad_case
+      end
+  | DList [ls; e; DList more] =>
+      match as_list_of dec_kind ls, dec_env e, as_list_of dec_env (DList more) with
+      | Some ks, Some e0, Some es =>
+          match run_one (number 0 ks) e0 with
+          | DList [m; s0] => DList [m; s0; DList (map (run_one (number 0 ks)) es)]
+          | x => x
+          end
+      | _, _, _ => bad_case
       end
   | _ => bad_case
   end.
